@@ -95,6 +95,7 @@ type Gen struct {
 	specText   string
 	recording  bool
 	preDefs    []string
+	stableFV   map[*ssa.FreeVar]bool
 }
 
 type deferRec struct {
@@ -282,6 +283,9 @@ func (g *Gen) sv(name, srt string) string {
 	if s, ok := g.svSort[name]; !ok {
 		g.svSort[name] = srt
 		g.declare(name+"!0", srt)
+		if strings.HasPrefix(name, "$called_") {
+			g.preDefs = append(g.preDefs, "(assert (not "+name+"!0))")
+		}
 	} else if s != srt && srt != "" {
 		g.errs = append(g.errs, fmt.Sprintf("state var %s used at sorts %s and %s", name, s, srt))
 	}
@@ -295,6 +299,9 @@ func (g *Gen) svIn(st State, name, srt string) string {
 	if _, ok := g.svSort[name]; !ok {
 		g.svSort[name] = srt
 		g.declare(name+"!0", srt)
+		if strings.HasPrefix(name, "$called_") {
+			g.preDefs = append(g.preDefs, "(assert (not "+name+"!0))")
+		}
 	}
 	if s, ok := st[name]; ok {
 		return s
@@ -326,6 +333,8 @@ func copyState(s State) State {
 
 // havocAll havocs every state variable known so far (and known from pass 1) except lock/alloc ghosts.
 func (g *Gen) havocAll(except func(string) bool) {
+	before := copyState(g.cur)
+	defer g.restoreStable(before)
 	names := map[string]string{}
 	for n, s := range g.svSort {
 		names[n] = s
